@@ -67,6 +67,33 @@ CLAIMED.update({
         note="Trusted: serde_json, rayon, TLC."),
 })
 
+CLAIMED.update({
+    "C10": dict(
+        cat="model_checking", ref="DESIGN.md §7 C10",
+        technique="TLC trace validation of recorded resize site events against the resize-protocol monitor (Trace_Resize); scripted critical schedules; TLC exhaustive check of the resize protocol in the implementation-shaped spec",
+        text="2-4 scheduled threads across one or more resize generations (tables of 2..64 bins, inserts / reserve / overfull small bins / "
+             "writers hitting forwarding markers) plus scripted scenarios; TLC checks on the recorded site events: a resize starts only on "
+             "the current table when none is open, helpers join the open resize with its own tables, each bin is forwarded once, exactly "
+             "one finishing thread (the last to leave), one publication of a table twice as long after all bins moved, quiescent end "
+             "not resizing with threshold 3/4 of the length, drop does not panic.",
+        note="Site events are emitted after the state change and before the thread's next yield point; scheduler runs only. "
+             "Found and fixed F6 (stale helper joins a later resize)."),
+    "C11": dict(
+        cat="model_checking", ref="DESIGN.md §7 C11",
+        technique="TLC: deadlock freedom + <>AllDone under weak fairness on TreeBinLock.tla; cooperative scheduler makes blocking a state, runs validated against Trace_Live",
+        text="(A) TLC exhaustively checks the tree-bin read-write lock protocol (writer, 2 readers, spurious wake-ups): mutual exclusion, no "
+             "deadlock / lost wake-up, termination under weak fairness. (B) The real crate under the scheduler: every explored run of "
+             "reader/writer mixes on tree bins, the initialisation race and resizing tables ends with all calls returned and nothing locked.",
+        note="Fairness as the property assumes; park/unpark token semantics; hooks at every blocking site."),
+    "C12": dict(
+        cat="model_checking", ref="DESIGN.md §7 C12",
+        technique="probe driver (writers frozen at a sampled yield point, reader run alone) validated by TLC against Trace_Solo; ReadersNeverBlock invariant on TreeBinLock.tla",
+        text="For sampled (program, schedule, freeze point) the writers are frozen inside critical sections / tree restructuring / bin "
+             "migration and one read operation runs alone on the real crate: it must finish by its own steps, announce no lock "
+             "acquisition, park or spin-wait, and stay within a generous structural step bound.",
+        note="Every lock acquisition, park and spin-wait of the crate is announced by a hook (a new unhooked lock would be missed)."),
+})
+
 NOT_APPLICABLE = {
     "C16": "compile-time verdict of rustc's borrow checker over a corpus of programs; there is no state, transition or trace for a TLA+ specification to describe (DESIGN.md §7)",
     "C17": "compile-time verdict of rustc's trait solver (Send/Sync bounds); no state, transition or trace for a TLA+ specification to describe (DESIGN.md §7)",
